@@ -51,3 +51,6 @@ def run(repo, res, tier):
     # expression and a based integer, and everything between is kept verbatim (explicit-state, per grammar)
     from .. import lexsim as _ls9
     _ls9.rule_preserve_kind(repo, res)
+    # the lexer works with the parser's own grammar and decoder
+    from .. import hookrules as _hkla
+    _hkla.rule_lexer_args(repo, res)
